@@ -413,6 +413,7 @@ class Result:
         self.crashes = []
         self.crash_case = None
         self.crash_msg = ""
+        self.xpairs = []          # (case, model, spec) sample for the in-Coq cross-check
 
 
 def correspondence(fam, tier, seed, nshards, nontrivial, extra=None, classify=None, sample_every=997, spec_matches=None):
@@ -479,6 +480,8 @@ def correspondence(fam, tier, seed, nshards, nontrivial, extra=None, classify=No
                 if "\t" in model:
                     model, spec = model.split("\t", 1)
                 res.evaluations += 1
+                if (res.evaluations % 499 == 7 or (i == 0 and res.evaluations <= 40)) and len(res.xpairs) < 1500:
+                    res.xpairs.append((case, model, spec))
                 op = case.split(" ", 1)[0]
                 res.stats[op] = res.stats.get(op, 0) + 1
                 if impl != model:
@@ -622,6 +625,18 @@ def run_property(cfg, tier, seed):
                 "meaning": "the implementation's observable differs from the proved model (hence from the specification) on this input",
             }
             violations.append(("corr", f"{len(fresh)} disagreeing case(s); minimal: {small[:200]}", payload))
+        # in-Coq cross-check of extraction + glue on a sample (families that have a term builder)
+        xinfo = {"checked": 0}
+        if cfg.get("xcheck") and not res.crashes and not res.errors:
+            import coqx
+            n, bad, err = coqx.crosscheck(cfg["xcheck"], res.xpairs, COQ, f"{BUILD}/tmp", limit=200 if tier == "quick" else 1000)
+            xinfo = {"checked": n, "disagreements": len(bad), "error": err}
+            if err:
+                proof_failures.append(err)
+            elif bad:
+                violations.append(("xcheck", f"extracted driver and in-Coq evaluation disagree on {len(bad)} of {n} sampled cases "
+                                             f"(extraction or glue fault, not an implementation fault); first: {bad[0]['case'][:160]}",
+                                   {"kind": "xcheck", "property": pid, "disagreements": bad[:10]}))
         if "post" in cfg:
             for v in cfg["post"](res, tier, seed):
                 violations.append(v)
@@ -650,6 +665,7 @@ def run_property(cfg, tier, seed):
         "exhaustive": bool(cfg.get("exhaustive", False)),
         "known_findings_seen": known_lines,
         "coqchk": coqchk_summary,
+        "in_coq_crosscheck": xinfo if res else {"checked": 0},
     }
     write_evidence(pid, tier, seed, cov, cfg.get("assumptions", []), time.time() - t0, len(violations), cfg.get("level", "proof"))
 
@@ -659,7 +675,7 @@ def run_property(cfg, tier, seed):
         for kind, text, payload in violations:
             path = write_replay(pid, payload)
             suffix = ""
-            if kind in ("proof", "build", "run") and not any(v[0] == "corr" for v in violations):
+            if kind in ("proof", "build", "run", "xcheck") and not any(v[0] == "corr" for v in violations):
                 suffix = " no-failing-input-found"
             print(f"DETAIL property={pid} [{kind}] {text}")
             print(f"VIOLATION property={pid} replay={path}{suffix}")
